@@ -92,16 +92,59 @@ def _opt_nat(v):
     return 'None' if v is None else f'(Some {int(v)}%nat)'
 
 
-def _arr(rows, many, dtype, strided=False):
-    """the array handed to the code; strided = a non-contiguous view with the same contents (every other row / column of a
-    larger array), to exercise reshape / fancy indexing on non-C-contiguous input"""
-    a = np.array(rows if many else rows[0], dtype=dtype)
-    if strided:
-        big = np.full(tuple(2 * d for d in a.shape), 0xA5, dtype=dtype)
+# every integer dtype numpy offers, in both byte orders (the property: "any integer dtype holding byte values"), and the memory
+# layouts the unchanged code accepts (confirmed on the unchanged tree for encrypt / decrypt / key_schedule / every primitive)
+ALL_DTYPES = ('int8', 'uint8', '<i2', '>i2', '<u2', '>u2', '<i4', '>i4', '<u4', '>u4', '<i8', '>i8', '<u8', '>u8')
+LAYOUTS = ('c', 'strided', 'readonly', 'fortran', 'negstride', 'offset', 'bcast')
+
+
+def _dtype_for(dtype, rows):
+    """int8 holds byte values up to 127 only"""
+    if np.dtype(dtype) == np.int8 and any(v > 127 for r in rows for v in r):
+        return '>i2'
+    return dtype
+
+
+def _layout(a, how):
+    """an array with the same shape, dtype and contents as `a` under another memory representation"""
+    if how in (None, 'c', False):
+        return a
+    if how in ('strided', True):                 # every other row / column of a larger array
+        big = np.full(tuple(2 * d for d in a.shape), 0x25, dtype=a.dtype)
         sl = tuple(slice(None, None, 2) for _ in a.shape)
         big[sl] = a
-        a = big[sl]
-    return a
+        return big[sl]
+    if how == 'readonly':
+        b = a.copy()
+        b.setflags(write=False)
+        return b
+    if how == 'fortran':
+        return np.asfortranarray(a)
+    if how == 'negstride':                       # negative strides on every axis
+        rev = tuple(slice(None, None, -1) for _ in a.shape)
+        return a[rev].copy()[rev]
+    if how == 'offset':                          # does not start at the beginning of its base buffer
+        big = np.full(a.size + 3, 0x25, dtype=a.dtype)
+        big[3:] = a.reshape(-1)
+        return big[3:].reshape(a.shape)
+    if how == 'bcast':                           # zero-stride broadcast view (read-only): only when all rows are equal
+        if a.ndim >= 2 and all((a[i] == a[0]).all() for i in range(a.shape[0])):
+            return np.broadcast_to(a[0], a.shape)
+        return a
+    raise ValueError(how)
+
+
+def _int8_rows(c):
+    """cipher case: an int8 argument holds values up to 127"""
+    if c['dtype_key'] == 'int8':
+        c['keys'] = [[v & 127 for v in r] for r in c['keys']]
+    if c['dtype_blk'] == 'int8':
+        c['blks'] = [[v & 127 for v in r] for r in c['blks']]
+
+
+def _arr(rows, many, dtype, layout=None):
+    """the array handed to the code"""
+    return _layout(np.array(rows if many else rows[0], dtype=_dtype_for(dtype, rows)), layout)
 
 
 def _pool_row(rng, n, which, klen=None, kind='blk', dec=False):
@@ -205,14 +248,33 @@ class CipherKind(Kind):
             n = rng.choice((1, 2, 3, 5)) if (km or bm) else 1
             r = rng.choice([None] + list(range(nr + 1)))
             s = rng.choice([None, 0, 1, 2, 3])
-            c = self._case(rng, rng.random() < 0.5, klen, r, s, km, bm, n, rng.randrange(4, 10), rng.choice(MORE_DTYPES), rng.choice(MORE_DTYPES))
-            c['strided'] = rng.random() < 0.4
+            c = self._case(rng, rng.random() < 0.5, klen, r, s, km, bm, n, rng.randrange(4, 10), rng.choice(ALL_DTYPES), rng.choice(ALL_DTYPES))
+            c['layout'] = rng.choice(LAYOUTS)
+            _int8_rows(c)
+            if c['layout'] == 'bcast':          # zero-stride views: all rows equal
+                c['keys'] = [c['keys'][0]] * len(c['keys'])
+                c['blks'] = [c['blks'][0]] * len(c['blks'])
             yield c
+        # 6. representation of the arguments: every dtype x every layout once (Latin square over key size / mode / shape / stop)
+        cnt = 0
+        for di, dt in enumerate(ALL_DTYPES):
+            for li, lay in enumerate(LAYOUTS):
+                klen = KLENS[(di + li) % 3]
+                nr = klen // 4 + 6
+                km, bm = self.SHAPES[(di + 2 * li) % 4] if lay != 'bcast' else self.SHAPES[1 + (di % 3)]
+                r, s = [(None, None), (0, 3), (1, 0), (nr, 3), (nr - 1, 2), (2, 1), (0, 0)][(di + 3 * li) % 7]
+                c = self._case(rng, bool((di + li) % 2), klen, r, s, km, bm, 2 if (km or bm) else 1, 4, dt, ALL_DTYPES[(di + 5 * li + 3) % 14])
+                c['layout'] = lay
+                _int8_rows(c)
+                if lay == 'bcast':
+                    c['keys'] = [c['keys'][0]] * len(c['keys'])
+                    c['blks'] = [c['blks'][0]] * len(c['blks'])
+                yield c
 
     def run(self, case):
         import scared
-        key = _arr(case['keys'], case['key_many'], case['dtype_key'], case.get('strided', False))
-        blk = _arr(case['blks'], case['blk_many'], case['dtype_blk'], case.get('strided', False))
+        key = _arr(case['keys'], case['key_many'], case['dtype_key'], case.get('layout', case.get('strided')))
+        blk = _arr(case['blks'], case['blk_many'], case['dtype_blk'], case.get('layout', case.get('strided')))
         key0, blk0 = key.copy(), blk.copy()
         kw = {}
         if case['round'] is not None:
@@ -251,7 +313,7 @@ class CipherKind(Kind):
         return {'mode': 'dec' if case['dec'] else 'enc', 'klen': len(case['keys'][0]),
                 'shape': ('K' if case['key_many'] else 'k') + ('B' if case['blk_many'] else 'b'),
                 'n': max(len(case['keys']), len(case['blks'])), 'round': case['round'], 'step': case['step'],
-                'dtype': case['dtype_key'] + '/' + case['dtype_blk'], 'strided': bool(case.get('strided', False))}
+                'dtype': case['dtype_key'] + '/' + case['dtype_blk'], 'layout': case.get('layout', 'c')}
 
     def tags(self, case, obs):
         return ['cipher', 'decrypt' if case['dec'] else 'encrypt']
@@ -282,8 +344,8 @@ class CipherKind(Kind):
                     yield dict(case, blks=[case['blks'][i]])
         if case['dtype_key'] != 'uint8' or case['dtype_blk'] != 'uint8':
             yield dict(case, dtype_key='uint8', dtype_blk='uint8')
-        if case.get('strided'):
-            yield dict(case, strided=False)
+        if case.get('layout', 'c') != 'c':
+            yield dict(case, layout='c')
 
 
 PRIMS = [('sub_bytes', 'PSubBytes', 16), ('shift_rows', 'PShiftRows', 16), ('mix_columns', 'PMixColumns', 16),
@@ -322,17 +384,24 @@ class PrimKind(Kind):
             for j in range(n):
                 shape = [[w], [1, w], [3, w], [2, 3, w], [1, 1, w], [2, 1, 2, w]][j % 6]
                 nrows = int(np.prod(shape[:-1])) if len(shape) > 1 else 1
-                yield {'op': fn, 'shape': shape, 'rows': [_rand_row(rng, w) for _ in range(nrows)], 'dtype': rng.choice(MORE_DTYPES),
-                       'strided': j % 2 == 1}
+                yield {'op': fn, 'shape': shape, 'rows': [_rand_row(rng, w) for _ in range(nrows)], 'dtype': rng.choice(ALL_DTYPES),
+                       'layout': LAYOUTS[j % 6]}
+            # representation of the argument: every dtype once, layouts in turn (bcast: equal rows)
+            for di, dt in enumerate(ALL_DTYPES):
+                lay = LAYOUTS[(di + w) % 7]
+                shape = [[2, w], [w], [2, 2, w]][di % 3] if lay != 'bcast' else [3, w]
+                nrows = int(np.prod(shape[:-1])) if len(shape) > 1 else 1
+                rows = [_rand_row(rng, w) for _ in range(nrows)]
+                if lay == 'bcast':
+                    rows = [rows[0]] * nrows
+                if dt == 'int8':
+                    rows = [[v & 127 for v in r] for r in rows]
+                yield {'op': fn, 'shape': shape, 'rows': rows, 'dtype': dt, 'layout': lay}
 
     def run(self, case):
         import scared
-        a = np.array(case['rows'], dtype=case['dtype']).reshape(case['shape'])
-        if case.get('strided'):
-            big = np.full(tuple(2 * d for d in a.shape), 0xA5, dtype=case['dtype'])
-            sl = tuple(slice(None, None, 2) for _ in a.shape)
-            big[sl] = a
-            a = big[sl]
+        a = _layout(np.array(case['rows'], dtype=_dtype_for(case['dtype'], case['rows'])).reshape(case['shape']),
+                    case.get('layout', case.get('strided')))
         a0 = a.copy()
         out = getattr(scared.aes, case['op'])(a)
         return {'shape': list(out.shape), 'values': _flat(out), 'input_unchanged': bool((a == a0).all())}
@@ -356,7 +425,7 @@ class PrimKind(Kind):
         return obs.get('values') != [v for r in case['rows'] for v in r]
 
     def features(self, case, obs):
-        return {'op': case['op'], 'ndim': len(case['shape']), 'dtype': case['dtype']}
+        return {'op': case['op'], 'ndim': len(case['shape']), 'dtype': case['dtype'], 'layout': case.get('layout', 'c')}
 
     def tags(self, case, obs):
         return ['primitive', case['op']]
@@ -368,9 +437,11 @@ class PrimKind(Kind):
         if len(case['rows']) > 1:
             w = len(case['rows'][0])
             for r in case['rows']:
-                yield dict(case, rows=[r], shape=[w])
+                yield dict(case, rows=[r], shape=[w], layout='c' if case.get('layout') == 'bcast' else case.get('layout', 'c'))
         if case['dtype'] != 'uint8':
             yield dict(case, dtype='uint8')
+        if case.get('layout', 'c') != 'c':
+            yield dict(case, layout='c')
 
 
 class ArkKind(Kind):
@@ -395,14 +466,26 @@ class ArkKind(Kind):
                     yield {'state_many': sm, 'states': states, 'key_many': km, 'keys': keys,
                            'dtype_state': DTYPES[cnt % 3], 'dtype_key': DTYPES[(cnt // 3) % 3]}
                     cnt += 1
+        for di, dt in enumerate(ALL_DTYPES):      # representation of the arguments
+            sm, km = ((False, True), (True, False), (True, True))[di % 3]
+            dk = ALL_DTYPES[(di + 5) % 14]
+            # the public add_round_key refuses (numpy: TypeError, no common integer type) a uint64 array mixed with a signed one on the
+            # unchanged tree; encrypt / decrypt never do that (state and round keys are uint8 there).  Reported, not generated.
+            if {np.dtype(dt).kind, np.dtype(dk).kind} == {'i', 'u'} and 8 in (np.dtype(dt).itemsize if np.dtype(dt).kind == 'u' else 0,
+                                                                               np.dtype(dk).itemsize if np.dtype(dk).kind == 'u' else 0):
+                dk = dt
+            top = 128 if 'int8' in (dt, dk) else 256
+            yield {'state_many': sm, 'states': [[rng.randrange(top) for _ in range(16)] for _ in range(2 if sm else 1)], 'key_many': km,
+                   'keys': [[rng.randrange(top) for _ in range(16)] for _ in range(2 if km else 1)], 'dtype_state': dt, 'dtype_key': dk,
+                   'layout': LAYOUTS[di % 6]}
         for g in range(4):   # every byte value xor every byte value position-wise is not needed: xor is bit-wise; rolling rows anyway
             yield {'state_many': True, 'states': [_rolling(64 * g + j) for j in range(0, 64, 4)], 'key_many': True,
                    'keys': [_rolling(255 - 64 * g - j) for j in range(0, 64, 4)], 'dtype_state': 'uint8', 'dtype_key': 'uint8'}
 
     def run(self, case):
         import scared
-        st = _arr(case['states'], case['state_many'], case['dtype_state'])
-        k = _arr(case['keys'], case['key_many'], case['dtype_key'])
+        st = _arr(case['states'], case['state_many'], case['dtype_state'], case.get('layout'))
+        k = _arr(case['keys'], case['key_many'], case['dtype_key'], case.get('layout'))
         st0, k0 = st.copy(), k.copy()
         out = scared.aes.add_round_key(st, k)
         return {'shape': list(out.shape), 'values': _flat(out), 'inputs_unchanged': bool((st == st0).all() and (k == k0).all())}
@@ -463,11 +546,21 @@ class KeyScheduleKind(Kind):
             n = 10 if tier == 'quick' else 200
             for _ in range(n):
                 many = rng.random() < 0.5
-                yield {'many': many, 'keys': [_rand_row(rng, klen) for _ in range(rng.choice((1, 2, 3)) if many else 1)], 'dtype': rng.choice(MORE_DTYPES)}
+                yield {'many': many, 'keys': [_rand_row(rng, klen) for _ in range(rng.choice((1, 2, 3)) if many else 1)], 'dtype': rng.choice(ALL_DTYPES),
+                       'layout': rng.choice(LAYOUTS[:6])}
+            for di, dt in enumerate(ALL_DTYPES):      # representation of the argument: every dtype, layouts in turn
+                lay = LAYOUTS[(di + klen // 8) % 7]
+                many = lay == 'bcast' or di % 2 == 0
+                keys = [_rand_row(rng, klen) for _ in range(2 if many else 1)]
+                if lay == 'bcast':
+                    keys = [keys[0]] * 2
+                if dt == 'int8':
+                    keys = [[v & 127 for v in r] for r in keys]
+                yield {'many': many, 'keys': keys, 'dtype': dt, 'layout': lay}
 
     def run(self, case):
         import scared
-        k = _arr(case['keys'], case['many'], case['dtype'])
+        k = _arr(case['keys'], case['many'], case['dtype'], case.get('layout'))
         k0 = k.copy()
         out = scared.aes.key_schedule(k)
         return {'shape': list(out.shape), 'values': _flat(out), 'input_unchanged': bool((k == k0).all())}
@@ -485,7 +578,7 @@ class KeyScheduleKind(Kind):
         return None
 
     def features(self, case, obs):
-        return {'klen': len(case['keys'][0]), 'many': case['many'], 'n': len(case['keys'])}
+        return {'klen': len(case['keys'][0]), 'many': case['many'], 'n': len(case['keys']), 'dtype': case['dtype'], 'layout': case.get('layout', 'c')}
 
     def sample(self, case, obs):
         return {'case': dict(case, keys=case['keys'][:2]), 'observed': dict(obs, values=obs.get('values', [])[:32])}
@@ -493,9 +586,11 @@ class KeyScheduleKind(Kind):
     def shrink(self, case):
         if len(case['keys']) > 1 or case['many']:
             for k in case['keys']:
-                yield dict(case, many=False, keys=[k])
+                yield dict(case, many=False, keys=[k], layout='c' if case.get('layout') == 'bcast' else case.get('layout', 'c'))
         if case['dtype'] != 'uint8':
             yield dict(case, dtype='uint8')
+        if case.get('layout', 'c') != 'c':
+            yield dict(case, layout='c')
 
 
 class SpecKatKind(Kind):
@@ -549,10 +644,13 @@ def _coq_cipher(dec, key_many, keys, blk_many, blks, r, st, obs):
 def _view(bufs, objs, arg):
     """the ndarray handed to the code for one argument: a view of the named buffer under the given dtype and shape; the SAME
     ndarray object is handed out again when the same (buffer, dtype, shape) is asked for again"""
-    k = (arg['buf'], arg['dtype'], tuple(arg['shape']))
+    k = (arg['buf'], arg['dtype'], tuple(arg['shape']), bool(arg.get('readonly')))
     if k not in objs:
         nbytes = int(np.prod(arg['shape'])) * np.dtype(arg['dtype']).itemsize          # a prefix of the buffer
-        objs[k] = bufs[arg['buf']][:nbytes].view(arg['dtype']).reshape(arg['shape'])
+        v = bufs[arg['buf']][:nbytes].view(arg['dtype']).reshape(arg['shape'])
+        if arg.get('readonly'):
+            v.setflags(write=False)
+        objs[k] = v
     return objs[k]
 
 
@@ -662,6 +760,27 @@ class HistoryKind(Kind):
                 yield {'class': 'a', 'buffers': {'S': _img(v, 'uint16')},
                        'calls': [{'fn': pfn, 'args': {'state': {'buf': 'S', 'dtype': 'uint16', 'shape': [w]}}},
                                  {'fn': pfn, 'args': {'state': {'buf': 'S', 'dtype': U8, 'shape': [2, w]}}}]}
+            # (r) one logical key / state under successive representations: every integer dtype in both byte orders, read-only views
+            for di, dt in enumerate(ALL_DTYPES):
+                klen = KLENS[di % 3]
+                top = 128 if dt == 'int8' else 256
+                kv = [rng.randrange(top) for _ in range(klen)]
+                bv = [rng.randrange(top) for _ in range(16)]
+                bufs = {'Kd': _img(kv, dt), 'K8': list(kv), 'Bd': _img(bv, dt), 'B8': list(bv)}
+                kd = {'buf': 'Kd', 'dtype': dt, 'shape': [klen]}
+                k8 = {'buf': 'K8', 'dtype': U8, 'shape': [klen], 'readonly': True}
+                bd = {'buf': 'Bd', 'dtype': dt, 'shape': [16], 'readonly': di % 2 == 0}
+                b8 = {'buf': 'B8', 'dtype': U8, 'shape': [16]}
+                r, s = [(None, None), (1, 2), (0, 3)][di % 3]
+                yield {'class': 'r', 'buffers': bufs, 'calls': [
+                    self._cipher_call('encrypt', kd, b8, r, s), self._cipher_call('encrypt', k8, bd, r, s),
+                    {'fn': 'key_schedule', 'args': {'key': dict(kd, readonly=True)}}, self._cipher_call('decrypt', kd, bd, r, s)]}
+                pfn, _, w = PRIMS[di % 8]
+                sv = [rng.randrange(top) for _ in range(2 * w)]
+                yield {'class': 'r', 'buffers': {'Sd': _img(sv, dt), 'S8': list(sv)}, 'calls': [
+                    {'fn': pfn, 'args': {'state': {'buf': 'S8', 'dtype': U8, 'shape': [2, w]}}},
+                    {'fn': pfn, 'args': {'state': {'buf': 'Sd', 'dtype': dt, 'shape': [2, w], 'readonly': True}}},
+                    {'fn': pfn, 'args': {'state': {'buf': 'Sd', 'dtype': dt, 'shape': [2 * w // 16 if w == 16 else 2, w]}}}]}
             # (b) the SAME ndarray object, mutated in place between the calls
             for klen in KLENS:
                 key = {'buf': 'K', 'dtype': U8, 'shape': [klen]}
